@@ -223,11 +223,12 @@ CHECKS.update({
         category="exploration",
         text="Mostly a bounded exploration, with a small proved core. Proved (contracts on the real handlers, all paths): Django visit_Attribute "
              "returns F(<owner lookup>.name + '__' + attr); SQLAlchemy-ORM visit_Attribute returns the attribute of the class the traversed "
-             "relationship points to and records that relationship exactly once as a required join (C15 proves the shorthand joins it once; "
+             "relationship points to and records that relationship exactly once as a required join; SQLAlchemy-ORM visit_CollectionLambda returns "
+             "visit(xs).any(None) / visit(xs).any(V'(reroot(x, p))) / ~visit(xs).any(~V'(reroot(x, p))) (C15 proves the shorthand joins once; "
              "C05/C10 the left-nested path; C17 the relative lambda body). Bounded (labelled, not counted): both back ends executed on in-memory "
              "SQLite over generated three-table databases (NULL foreign keys, empty collections) for 32 filters with to-one paths, any(), "
              "any(x: p), all(x: p), nested lambdas and and/or/not, against reference semantics.",
-        note="visit_CollectionLambda of both back ends is out of reach of the symbolic executor (model-meta loops, sub-visitor); join kind, join "
+        note="Django's visit_CollectionLambda is out of reach of the symbolic executor (model-meta loops, introspection of Django expression objects); join kind, join "
              "promotion under `or`, EXISTS correlation are the ORMs' decisions: bounded only. Findings: SQLAlchemy's INNER JOIN drops parents with a "
              "NULL foreign key (recorded); Django all() was not negated on Django >= 3.0 (fixed, eb3323b). Designed as not applicable (DESIGN 9).",
         technique="contracts on the two path handlers (pyvc, external calls uninterpreted); bounded execution of both ORMs on generated databases",
